@@ -105,8 +105,12 @@ def terms(tier, rng):
                 d2.append(ter(op, y, x, y))
                 d2.append(ter(op, x, y, leaf("read")))
     if tier == "quick":
-        rng.shuffle(d2)
-        d2 = d2[:9000]
+        # every combinator over every combinator over every leaf is always there; the rest is a seeded sample
+        keep = [t for t in d2 if "p" in t and "l" not in t and "p" in t["p"] and "l" not in t["p"] and not any(k in t["p"]["p"] for k in ("p", "l", "r"))]
+        ids = {id(t) for t in keep}
+        rest = [t for t in d2 if id(t) not in ids]
+        rng.shuffle(rest)
+        d2 = keep + rest[:max(0, 10000 - len(keep))]
     out += d2
     # depth 3/4: seeded samples
     n34 = 40000 if tier == "thorough" else 3000
